@@ -29,7 +29,8 @@ MANIFEST = {
             "payload object alone) — also through HostNode.receive_frame, through Router.check_send_frame_to_session_manager "
             "(routers, firewalls) and along any exchange between two nodes over an ideal transport. "
             "PAYLOAD PROCESSING of DNSServer / DNSClient / NTPServer / NTPClient is modelled and proved: a DNS request is answered "
-            "with exactly the registered address or none, a reply is never answered (no endless exchange), the client caches "
+            "with exactly the registered address or none, a reply is never answered and every exchange terminates within a proved "
+            "number of steps (no endless exchange between two servers), the client caches "
             "exactly what was answered; a lookup and an NTP time request end to end between two nodes succeed exactly when the "
             "server and the client are RUNNING on ON nodes with the frames accepted, and otherwise change nothing. "
             "CONNECTION BOOKKEEPING (add_connection / terminate_connection): health becomes OVERWHELMED exactly when a connection is "
@@ -45,7 +46,7 @@ MANIFEST = {
             "modelled over an IDEAL transport (both nodes ON, peer's frame filter accepts; ARP, links, NIC state, ACLs are C08/C12/C18's "
             "subject) and the rig uses instant power transitions there; the exchange started by an NTP client inside "
             "Node.apply_timestep is modelled at its place in the per-service loop only while no power countdown is pending; "
-            "termination of the model's transport is bounded by fuel (proved: a reply is never answered; not proved: a general bound); "
+            "termination of the model's transport is proved for nodes with at most 61 installed programs (fuel 4096); "
             "class-specific `execute`/`configure` requests, C2Beacon closing itself, DatabaseService's nested FTPClient install, "
             "install timing as a single run-level theorem (services only) are not covered; router/firewall frame paths only as far "
             "as the hand-over test to the session manager.",
@@ -279,7 +280,13 @@ def run(ctx: Ctx):
                        "class, the 10 service / 4 application requests, direct method calls, duration writes, ticks, power API and "
                        "requests, payload deliveries and frames); after every operation the answer and the whole registry/lifecycle "
                        "state are diffed against the Lean driver; a case is non-trivial when some answer is a refusal, a raise, an "
-                       "ignored frame or a delivery; distinct by canonical JSON of the model lines")
+                       "ignored frame or a delivery; distinct by canonical JSON of the model lines.  R-recv cases = (two real hosts on a link; "
+                       "installs of DNS/NTP servers and of listeners, lifecycle requests and power events on either node, dns_register / "
+                       "add_domain_to_cache / dns_lookup / check_domain_exists / request_time / Node.apply_timestep, client configuration, "
+                       "clock changes, injected frames with DNS/NTP requests and replies, junk and port-scan payloads, open-port queries); "
+                       "after every operation the answer, every receive() call it caused on both nodes (object, may-act, return value) in "
+                       "call order, both state lines and both class-data lines are diffed; non-trivial = some receive() call was caused.  "
+                       "R-conn cases = (class, max_sessions 0..3, starting health, add/terminate sequence); non-trivial = OVERWHELMED reached")
 
     # -- Gen class table vs live classes
     tbl = {r["cls"]: r for r in x_sw.class_table()}
